@@ -2,7 +2,7 @@
 (* step st kind inputs = (st', expected observations).                                   *)
 (* Kinds flagged by is_monitor have inputs that are *observed* on the implementation and  *)
 (* a constant expected output: a mismatch there is a property violation on the real code. *)
-From VD Require Import Base.Words Model.Layout Model.Queue Extract.QueueIO Extract.QueueMon Extract.OwningIO Extract.MmioIO Model.PciBus Extract.PciBusIO Model.Blk Extract.BlkIO Model.Console Extract.ConsoleIO Extract.ConfigIO Extract.NetIO.
+From VD Require Import Base.Words Model.Layout Model.Queue Extract.QueueIO Extract.QueueMon Extract.OwningIO Extract.MmioIO Model.PciBus Extract.PciBusIO Model.Blk Extract.BlkIO Model.Console Extract.ConsoleIO Extract.ConfigIO Extract.NetIO Extract.ConnMgrIO.
 
 Inductive mstate :=
 | MNone
@@ -11,7 +11,8 @@ Inductive mstate :=
 | MOwning (q : option qstate)
 | MBlk (b : option bstate)
 | MConsole (c : option cio)
-| MNet (n : option netst).
+| MNet (n : option netst)
+| MConnMgr (c : option cmio).
 
 Definition bad : list N := [77777].
 
@@ -19,7 +20,7 @@ Definition bad : list N := [77777].
 Definition is_diag (k : N) : bool := (k =? 140).
 
 Definition is_monitor (k : N) : bool :=
-  (k =? 1) || (k =? 2) || (k =? 612) || ((150 <=? k) && (k <? 170)) || (k =? 1950) || (k =? 1951) || mmio_is_monitor k || pci_is_monitor k || blk_is_monitor k || console_is_monitor k || config_is_monitor k || net_is_monitor k.
+  (k =? 1) || (k =? 2) || (k =? 612) || ((150 <=? k) && (k <? 170)) || (k =? 1950) || (k =? 1951) || mmio_is_monitor k || pci_is_monitor k || blk_is_monitor k || console_is_monitor k || config_is_monitor k || net_is_monitor k || connmgr_is_monitor k.
 
 Definition dir_reads (d : N) : bool := (d =? 0) || (d =? 2).
 Definition dir_writes (d : N) : bool := (d =? 1) || (d =? 2).
@@ -65,6 +66,10 @@ Definition step (st : mstate) (k : N) (ins : list N) : mstate * list N :=
   else if (1600 <=? k) && (k <? 1650) then
     (let n := match st with MNet n => n | _ => None end in
      let '(n', o) := net_step n k ins in (MNet n', o))
+  (* ---- C18: vsock connection manager (kinds 1800..1899) ---- *)
+  else if (1800 <=? k) && (k <? 1900) then
+    (let c := match st with MConnMgr c => c | _ => None end in
+     let '(c', o) := connmgr_step c k ins in (MConnMgr c', o))
   else if k =? 1950 then (st, [b2n (mon_owning ins)])
   else if k =? 1951 then (st, [b2n (mon_input ins)])
   else if (1900 <=? k) && (k <? 1950) then
